@@ -610,6 +610,11 @@ def seq_int(s, base, ctx):
         from .sym import register_besum
         if len(vals) % 2 == 0 and len(vals) >= 2:
             bs = [byte_of_nibs(vals[i], vals[i + 1]) for i in range(0, len(vals), 2)]
+            from .sym import le_value, _LEBYTE
+            if all(isz(b) and b.get_id() in _LEBYTE for b in bs):
+                lv = le_value(list(reversed(bs)))
+                if isz(lv) and lv.get_id() == _LEBYTE[bs[0].get_id()][0].get_id():
+                    return lv
             v = 0
             for b in bs:
                 v = v * 256 + b if not (isz(v) or isz(b)) else zi(v) * 256 + zi(b)
